@@ -156,10 +156,29 @@ def gen_malformed(r, keys, maxlen=60):
 
 
 # ------------------------------------------------------------------ flat schema cases
-KINDS = ["R", "I", "B", "S", "V", "N1", "N2", "N3", "K"]
+KINDS = ["R", "I", "B", "S", "V", "N1", "N2", "N3", "K", "T3", "T4", "T2", "T5", "R!", "S!", "B!", "T3!"]
 
 
 def value_for(r, kind, good=True):
+    kind = kind.rstrip("!")
+    if kind[0] == "T":
+        n = int(kind[1:])
+        toks = [r.choice(NUMBER_TOKENS) for _ in range(n)]
+        sp = lambda: r.choice(["", " ", "  ", "\t"])
+        if good:
+            return "(" + sp() + (sp() + "," + sp()).join(toks) + sp() + ")"
+        m = r.random()
+        if m < 0.2:
+            return "(" + ", ".join(toks)                       # no closing parenthesis
+        if m < 0.4:
+            return "(" + ", ".join(toks[:-1] or ["1"]) + ")" if n > 1 else "()"   # too few
+        if m < 0.55:
+            return "(" + ", ".join(toks + ["1"]) + ")"         # too many
+        if m < 0.7:
+            return "(" + ", ".join(toks) + ") x"               # text after
+        if m < 0.85:
+            return "(" + ", ".join([r.choice(BAD_NUMBER_TOKENS)] + toks[1:]) + ")"
+        return " ".join(toks)                                  # no parentheses
     if kind == "R":
         return r.choice(NUMBER_TOKENS if good else BAD_NUMBER_TOKENS + ["1 2", "1 abc", "0.5 .", "2 1e"])
     if kind == "I":
@@ -258,3 +277,118 @@ def decorate_raw(r, conf):
         if r.random() < 0.1:
             out.append(rws(r, 3, True))
     return b"\n".join(out)
+
+
+# ------------------------------------------------------------------ nested schema cases (blocks within blocks)
+NESTED = [
+    ("colvar", [("name", "S"), ("width", "R"), ("lowerBoundary", "R"), ("outputEnergy", "B"),
+                ("distance", [("forceNoPBC", "B"), ("group1", [("atomNumbers", "V"), ("indexGroup", "S")]),
+                              ("group2", [("atomNumbers", "V"), ("dummyAtom", "N3")])]),
+                ("distanceZ", [("main", [("atomNumbers", "V")]), ("ref", [("atomNumbers", "V")]), ("axis", "N3")])]),
+    ("harmonic", [("name", "S"), ("colvars", "S"), ("centers", "V"), ("forceConstant", "R"), ("outputEnergy", "B")]),
+    ("colvarsTrajFrequency", "I"),
+    ("indexFile", "S"),
+]
+
+
+def nested_schema_str(items):
+    out = []
+    for k, v in items:
+        if isinstance(v, list):
+            out.append("G:%s[%s]" % (hx(k), nested_schema_str(v)))
+        else:
+            out.append("%s:%s" % (v, hx(k)))
+    return ";".join(out)
+
+
+def gen_nested_lines(r, items, depth, paths, path=()):
+    """lines (bytes, without LF) of a random valid instance of the items; paths collects (line index, path, key, kind)"""
+    lines = []
+    for k, v in items:
+        if r.random() < 0.25:
+            continue
+        ind = b"  " * depth + rws(r, 2, True) if r.random() < 0.3 else b"  " * depth
+        kw = rcase(r, k.encode()) if r.random() < 0.3 else k.encode()
+        if isinstance(v, list):
+            inner = gen_nested_lines(r, v, depth + 1, [], path + (k,))
+            if inner and len(inner) == 1 and b"{" not in inner[0] and r.random() < 0.4:
+                lines.append(ind + kw + rws(r, 2) + b"{ " + inner[0].strip() + b" }")
+                paths.append((len(lines) - 1, path, k, "block1"))
+            else:
+                lines.append(ind + kw + rws(r, 2) + b"{")
+                paths.append((len(lines) - 1, path, k, "block"))
+                base = len(lines)
+                sub_paths = []
+                inner = gen_nested_lines(r, v, depth + 1, sub_paths, path + (k,)) if not inner else inner
+                # regenerate paths for the inner lines actually used
+                for i, l in enumerate(inner):
+                    m = re.match(rb"\s*([A-Za-z_][A-Za-z0-9_]*)", l)
+                    if m:
+                        paths.append((base + i, path + (k,), m.group(1).decode(), "line"))
+                lines += inner
+                lines.append(b"  " * depth + b"}")
+        else:
+            val = value_for(r, v, True).encode()
+            lines.append(ind + kw + (rws(r, 3) + val if val else b"") + rws(r, 2, True))
+            paths.append((len(lines) - 1, path, k, v))
+    return lines
+
+
+def gen_nested_case(r):
+    """(schema string, raw conf bytes, tag)"""
+    paths = []
+    lines = gen_nested_lines(r, NESTED, 0, paths)
+    tag = "valid"
+    m = r.random()
+    cand = [p for p in paths if re.match(rb"\s*[A-Za-z_]", lines[p[0]])]
+    if m < 0.4 or not cand:
+        pass
+    elif m < 0.6:
+        tag = "misspelt"
+        i = r.choice(cand)[0]
+        l = lines[i]
+        st = len(l) - len(l.lstrip())
+        lines[i] = l[:st + 1] + b"Q" + l[st + 1:] if r.random() < 0.5 else l[:st] + b"x" + l[st:]
+    elif m < 0.75:
+        tag = "wrong-level"
+        # a leaf line of one level moved to another level where that keyword does not exist
+        leafs = [p for p in cand if p[3] in ("S", "R", "I", "B", "V", "N3") and b"{" not in lines[p[0]]]
+        if leafs:
+            src = r.choice(leafs)
+            key = src[2]
+            def keys_at(path):
+                items = NESTED
+                for seg in path:
+                    items = dict((k, v) for k, v in items)[seg]
+                return [k.lower() for k, _ in items]
+            others = [p for p in cand if p[1] != src[1] and key.lower() not in keys_at(p[1]) and p[0] != src[0]]
+            if others:
+                dst = r.choice(others)
+                l = lines[src[0]]
+                lines[src[0]] = b""
+                lines[dst[0]] = l.strip() + b"\n" + lines[dst[0]]
+            else:
+                tag = "valid"
+        else:
+            tag = "valid"
+    elif m < 0.85:
+        tag = "unknown-keyword"
+        i = r.randrange(len(lines) + 1)
+        lines.insert(i, rws(r, 4, True) + r.choice([b"fooBar 1", b"widthh 0.5", b"x", b"atomNumbers_ 1 2"]))
+    elif m < 0.93:
+        tag = "brace"
+        idx = [i for i, l in enumerate(lines) if b"{" in l or b"}" in l]
+        if idx:
+            i = r.choice(idx)
+            ch = b"{" if b"{" in lines[i] else b"}"
+            k = lines[i].rfind(ch)
+            lines[i] = lines[i][:k] + lines[i][k + 1:]
+        else:
+            tag = "valid"
+    else:
+        tag = "bytes"
+        return nested_schema_str(NESTED), mutate_bytes(r, b"\n".join(lines) + b"\n"), tag
+    conf = b"\n".join(l for l in lines) + b"\n"
+    if r.random() < 0.3:
+        conf = decorate_raw(r, conf)
+    return nested_schema_str(NESTED), conf, tag
